@@ -647,6 +647,28 @@ example : ((fun (s : S) => (s.phase, s.trace))
       List.replicate 4 .work))) =
     ([.un 0, .uh 0 true, .dh 502 true, .log 502 16], true, 0) := by decide
 
+/-- **cleaned_holds_nothing**: on every schedule, once the stream is cleaned it holds no upstream request — no client stream is
+live, the upstream gauge is back at the ambient value 0, both timers are stopped: `cleanStream` resets the upstream request
+whenever one exists that is not done (two-way), in EVERY phase (the regenerated condition `Gen.ProxyBackoff.cleanResets` reads
+neither the phase nor the retry mark) — in particular when the client leaves while the wake-up from the back-off is sending
+the next attempt. -/
+theorem cleaned_holds_nothing (c : Cfg) (ar aq : Nat) (l : List Label) (h : (reach c ar aq l).cleaned = true) :
+    liveCount (reach c ar aq l).streams = 0 ∧ (reach c ar aq l).upActive = 0 ∧ (reach c ar aq l).perTry = false ∧
+    (reach c ar aq l).global = false ∧
+    (∀ s : S, ∀ p m, Gen.ProxyBackoff.cleanResets (resetFlags c s) p m = (s.up.isSome && !s.procDone && !c.oneway)) := by
+  have hi := inv_run c ar aq l
+  obtain ⟨_, h1, h2, h3⟩ := hi.k13 h
+  refine ⟨h1, ?_, h2, h3, fun s => cleanResets_regenerated c s⟩
+  have := hi.k11
+  simp only [K11, h1] at this
+  simpa using this
+
+/-- non-vacuity: a request with a body is retried; the client leaves after attempt 1 was sent by the wake-up: it is reset -/
+example : ((fun (s : S) => (s.trace, s.cleaned, s.upActive))
+    (reach { hasData := true, retryOn := true, numRetries := 1 } 0 0
+      (List.replicate 12 .work ++ [.upReset 0 .StreamConnectionFailed, .work, .work, .downReset .StreamConnectionTermination, .work]))) =
+    ([.un 0, .uh 0 false, .ud 0 true, .un 1, .uh 1 false, .ud 1 true, .ur 1, .log 504 0], true, 0) := by decide
+
 /-! ## proxy10: the global timer is armed once per request -/
 
 /-- **global_timer_armed_once**: on EVERY schedule — retries, late frames, timer callbacks inside the retry set-up, the client's
